@@ -12,6 +12,7 @@ from __future__ import annotations
 
 import datetime as pydt
 import io
+import contextlib
 import os
 import random
 import warnings
@@ -19,7 +20,7 @@ import warnings
 from vf import core, recgen
 from vf import streamcases as sc
 
-THEOREMS = ["C01_generated_cfg_good", "C01_stream_roundtrip", "C01_field_roundtrip", "C01_envelope_roundtrip",
+THEOREMS = ["C01_generated_cfg_good", "C01_generated_pack_is_config_free", "C01_stream_roundtrip", "C01_field_roundtrip", "C01_envelope_roundtrip",
             "C01_hypotheses_satisfiable", "C01_sample_reads_back", "C01_refuted_version_restamped",
             "C01_refuted_nested_list_becomes_tuple", "C01_refuted_small_ipv6_as_integer",
             "C01_generated_ip6_small_packed"]
@@ -123,6 +124,7 @@ def path_roundtrip(ctx, items, ext, stream_bytes):
 
 
 def generate_cases(ctx, n, check_paths=True):
+    from flow.record.base import ignore_fields_for_comparison
     rnd = random.Random(ctx.seed)
     out = []
     exts = [".records", ".records.gz", ".records.bz2", ".records.lz4", ".records.zst"]
@@ -136,19 +138,31 @@ def generate_cases(ctx, n, check_paths=True):
             ctx.notes.append("skipped unobservable generated record: %s" % e)
             continue
         case = dict(index=i, items=items, obs=obs)
-        try:
-            data = sc.write_stream_bytes(items)
-            rb = sc.read_stream_items(data)
-            case.update(data=data, rb=rb, rbo=[recgen.obs_item(x, True) for x in rb])
-        except Exception as e:  # noqa
-            case["error"] = "%s: %s" % (type(e).__name__, e)
-        if check_paths and "error" not in case:
-            ext = exts[i % len(exts)]
+        # process configuration that must not leak into what is written: the ignored-fields set of record comparison
+        # (FLOW_RECORD_IGNORE / set_ignored_fields_for_comparison) is non-empty in a third of the cases
+        ignored = None
+        if i % 3 == 2:
             try:
-                prb, raw = path_roundtrip(ctx, items, ext, case["data"])
-                case.update(ext=ext, path_rb=prb, path_raw=raw)
+                declared = [n for _, n in items[0]._desc.get_field_tuples()]
+            except Exception:  # noqa
+                declared = []
+            ignored = {"_generated"} if i % 2 else set(["_generated", "_source"] + declared[:1])
+        case["ignored_fields"] = sorted(ignored) if ignored else None
+        scope = ignore_fields_for_comparison(ignored) if ignored else contextlib.nullcontext()
+        with scope:
+            try:
+                data = sc.write_stream_bytes(items)
+                rb = sc.read_stream_items(data)
+                case.update(data=data, rb=rb, rbo=[recgen.obs_item(x, True) for x in rb])
             except Exception as e:  # noqa
-                case["path_error"] = "%s via %s: %s" % (type(e).__name__, ext, e)
+                case["error"] = "%s: %s" % (type(e).__name__, e)
+            if check_paths and "error" not in case:
+                ext = exts[i % len(exts)]
+                try:
+                    prb, raw = path_roundtrip(ctx, items, ext, case["data"])
+                    case.update(ext=ext, path_rb=prb, path_raw=raw)
+                except Exception as e:  # noqa
+                    case["path_error"] = "%s via %s: %s" % (type(e).__name__, ext, e)
         out.append(case)
     return out
 
@@ -161,12 +175,12 @@ def check_property(ctx, cases):
         ctx.count_case(cs["obs"], nontrivial=nontrivial)
         if "error" in cs:
             ctx.violation("writing/reading a generated sequence raised %s" % cs["error"],
-                          dict(kind="roundtrip-raises", case=cs["index"], items=[repr(x) for x in items], error=cs["error"]))
+                          dict(kind="roundtrip-raises", case=cs["index"], ignored_fields_for_comparison=cs.get("ignored_fields"), items=[repr(x) for x in items], error=cs["error"]))
             return True
         ok, a, b = deep_equal(items, cs["rb"])
         if not ok:
-            ctx.violation("stream round trip changed a record: %s" % first_difference(a, b),
-                          dict(kind="roundtrip", case=cs["index"], items=[repr(x) for x in items],
+            ctx.violation("stream round trip changed a record%s: %s" % (" (written while the ignored-fields set of record comparison was %s)" % cs["ignored_fields"] if cs.get("ignored_fields") else "", first_difference(a, b)),
+                          dict(kind="roundtrip", case=cs["index"], ignored_fields_for_comparison=cs.get("ignored_fields"), items=[repr(x) for x in items],
                                readback=[repr(x) for x in cs["rb"]], difference=first_difference(a, b)))
             return True
         if "path_error" in cs:
